@@ -25,6 +25,7 @@
       C01eval oracle's findings.  The refinement is false there, so no theorem can state it.
 -/
 import SoyVerif.Lemmas.EvalRefine
+import SoyVerif.Lemmas.FuncRefine
 import SoyVerif.Lemmas.F64Order
 
 namespace SoyVerif.Props.C01
@@ -62,7 +63,7 @@ def fragO (ord : Bool) : Expr → Bool
   | .tern _ c a b => fragO ord c && fragO ord a && fragO ord b
   | .list _ items => listFragO ord items
   | .map _ items => mapFragO ord items
-  | _ => false
+  | .func _ name args => fnOk name && listFragO ord args
 /-- access chains: `.k`, `.N`, `[e]` and the null-safe forms, the key expressions in the fragment -/
 def accFrag (ord : Bool) : AccessList → Bool
   | .nil => true
@@ -480,7 +481,45 @@ theorem eval_refines_spec_ord (ord : Bool) (hord : ord = true → OrdExact) : (e
           | int x => simp [absV] at herr
           | float x => simp [absV] at herr
           | str x => simp [absV] at herr
-  | .func .., hf => by simp [fragO] at hf
+  | .func _ name args, hf => by
+    intro n
+    simp only [fragO, Bool.and_eq_true] at hf
+    obtain ⟨hlM, hlS⟩ := fnOk_notLoop name hf.1
+    have ih := args_sim ord hord args hf.2 n
+    rw [Spec.Eval.eval.eq_def, evalE.eq_def]
+    simp only [hlM, hlS, Bool.false_eq_true, if_false]
+    refine ⟨fun v hv => ?_, fun herr => ?_⟩
+    · obtain ⟨vs, hvs, hv⟩ := bind_val hv
+      obtain ⟨mvs, n', h1, h2⟩ := ih.1 vs hvs
+      rw [← h2] at hv
+      obtain ⟨har, mv, n'', hap, habs⟩ := (fn_agree name hf.1 mvs n').1 v hv
+      rw [evalArgs_len args n mvs n' h1] at har
+      simp only [arityOk] at har
+      cases hA : funcArities name with
+      | none => rw [hA] at har; simp at har
+      | some ar =>
+        rw [hA] at har
+        simp only at har ⊢
+        simp only [har, Bool.not_true, Bool.false_eq_true, if_false, h1]
+        exact ⟨mv, n'', hap, habs⟩
+    · cases hA : funcArities name with
+      | none => rfl
+      | some ar =>
+        simp only
+        by_cases hc : ar.contains args.length = true
+        · simp only [hc, Bool.not_true, Bool.false_eq_true, if_false]
+          rcases bind_err herr with h | ⟨vs, hvs, h⟩
+          · rw [ih.2 h]
+          · obtain ⟨mvs, n', h1, h2⟩ := ih.1 vs hvs
+            rw [← h2] at h
+            rw [h1]
+            rcases (fn_agree name hf.1 mvs n').2 h with hbad | hbad
+            · rw [evalArgs_len args n mvs n' h1] at hbad
+              have hc' : args.length ∈ ar := by simpa using hc
+              simp [arityOk, hA, hc'] at hbad
+            · exact hbad
+        · have hc' : ¬ args.length ∈ ar := by simpa using hc
+          simp [hc']
   | .list _ items, hf => by
     intro n
     have ih := args_sim ord hord items (by simpa [fragO] using hf) n
@@ -826,5 +865,20 @@ example : ∃ mv n', evalE m1 lit1 7 = .ok mv n' ∧ absV mv = .list [.int 1, .m
   (eval_refines_spec_partial rel1 lit1 (by decide) 7).1 _ (by rfl)
 example : ∃ mv n', evalE m1 lit2 7 = .ok mv n' ∧ absV mv = .map [([107], .list [.int 1, .int 2]), ([106], .null)] :=
   (eval_refines_spec_partial rel1 lit2 (by decide) 7).1 _ (by rfl)
+
+/-! ### builtins: `length($x.a) + (strContains('abc', 'bc') ? 10 : 0) + (isNonnull($x.n) ? 100 : 0)` = 12, and
+    `range(length($x.a))` = [0, 1] -/
+
+def fn1 : Expr :=
+  .bin .add 0 (.bin .add 0
+    (.func 0 fLength (.cons (.dataRef 0 [120] (.cons (.key 0 false [97]) .nil)) .nil))
+    (.tern 0 (.func 0 fStrContains (.cons (.str 0 [] [97, 98, 99]) (.cons (.str 0 [] [98, 99]) .nil))) (.int 0 10) (.int 0 0)))
+    (.tern 0 (.func 0 fIsNonnull (.cons (.dataRef 0 [120] (.cons (.key 0 false [110]) .nil)) .nil)) (.int 0 100) (.int 0 0))
+def fn2 : Expr := .func 0 fRange (.cons (.func 0 fLength (.cons (.dataRef 0 [120] (.cons (.key 0 false [97]) .nil)) .nil)) .nil)
+
+example : ∃ mv n', evalE m1 fn1 7 = .ok mv n' ∧ absV mv = .int 12 :=
+  (eval_refines_spec_partial rel1 fn1 (by decide) 7).1 _ (by rfl)
+example : ∃ mv n', evalE m1 fn2 7 = .ok mv n' ∧ absV mv = .list [.int 0, .int 1] :=
+  (eval_refines_spec_partial rel1 fn2 (by decide) 7).1 _ (by rfl)
 
 end SoyVerif.Props.C01
